@@ -190,9 +190,10 @@ func (r *resolver) pairs(n *yaml.Node, mstack map[*yaml.Node]bool, depth int) ([
 		k, v := n.Content[i], n.Content[i+1]
 		if !isMerge(k) {
 			ck, _ := CanonKey(k)
-			if j, dup := pos[ck]; dup {
-				out[j].val = v // duplicate explicit key: last value, first position (generators avoid this)
-				continue
+			if _, dup := pos[ck]; dup {
+				// a key written twice in one mapping is not YAML the model defines (yaml.v3's own
+				// decoder rejects it); such documents are outside, never compared
+				return nil, fmt.Errorf("%w: duplicate key %q", ErrOutside, ck)
 			}
 			pos[ck] = len(out)
 			out = append(out, kv{ck, v})
